@@ -210,7 +210,10 @@ func appendTerms(left, right [][]*node) [][]*node {
 	var result [][]*node
 	for _, r := range right {
 		for _, l := range left {
-			tmp := l
+			// copy l first: appending to l directly could write into spare capacity
+			// of its backing array, which other results may share
+			tmp := make([]*node, 0, len(l)+len(r))
+			tmp = append(tmp, l...)
 			tmp = append(tmp, r...)
 			result = append(result, tmp)
 		}
